@@ -6,6 +6,7 @@ use crate::real::{self, Obs};
 use crate::refspec::{self, KeyType, Verdict};
 use crate::report::*;
 use crate::rlp;
+use crate::schemes::{K256S, Sch};
 use alloy_rlp::Decodable;
 use enr::{Enr, EnrKey, NodeId};
 use rayon::prelude::*;
@@ -1042,4 +1043,73 @@ pub fn run_c03_sweeps(tier: Tier, rep: &mut Report) {
         rep.stats.transitions += 5;
     }
     rep.stats.sample(json!({"byte_strings_up_to": maxlen, "texts_up_to": tmax, "text_alphabet": alpha.len()}));
+    c03_structured_big(rep);
+}
+
+/// Large structured arguments: lists nested tens of thousands of levels deep, values of hundreds of
+/// kilobytes, lists of thousands of items. A stack overflow or abort cannot be caught in-process, so
+/// each case is journalled first; the driver turns an abnormal exit into a C03 violation naming it.
+fn c03_structured_big(rep: &mut Report) {
+    use bytes::Bytes;
+    let journal = format!("{}/evidence/parts/C03.{}.journal", crate::verif_dir(), crate::CFG);
+    let _ = std::fs::create_dir_all(format!("{}/evidence/parts", crate::verif_dir()));
+    let values: Vec<(&str, Vec<u8>)> = vec![
+        ("nest-1000", rlp::deep_nest(1_000)),
+        ("nest-20000", rlp::deep_nest(20_000)),
+        ("nest-150000", rlp::deep_nest(150_000)),
+        ("list-of-100000-empty-strings", rlp::enc_list_payload(&vec![0x80u8; 100_000])),
+        ("list-of-50000-empty-lists", rlp::enc_list_payload(&vec![0xc0u8; 50_000])),
+        ("string-1MiB", rlp::enc_str(&vec![0x61u8; 1 << 20])),
+    ];
+    let mut n = 0u64;
+    for (label, raw) in &values {
+        for call in ["insert_raw_rlp", "builder.add_value_rlp+build", "decode", "Vec<Enr>::decode", "remove_insert", "text-parse"] {
+            let case = format!("{call}({label}, {} bytes)", raw.len());
+            let _ = std::fs::write(&journal, &case);
+            n += 1;
+            let raw = raw.clone();
+            let call_s = call.to_string();
+            // an ordinary thread (default stack size), as a caller of the library would use
+            let r = std::thread::spawn(move || {
+                real::guard(|| {
+                    let key = K256S::mk_key(0);
+                    match call_s.as_str() {
+                        "insert_raw_rlp" => {
+                            let mut e = Enr::builder().build(&key).expect("minimal record");
+                            let _ = e.insert_raw_rlp("big", Bytes::from(raw), &key);
+                            let _ = real::sweep(&e, &[]);
+                        }
+                        "builder.add_value_rlp+build" => {
+                            let _ = Enr::<enr::k256::ecdsa::SigningKey>::builder().add_value_rlp("big", Bytes::from(raw)).build(&key);
+                        }
+                        "decode" => {
+                            let _ = decode_all(&raw);
+                        }
+                        "Vec<Enr>::decode" => {
+                            let _ = Vec::<Enr<enr::CombinedKey>>::decode(&mut &raw[..]);
+                            let _ = Vec::<Vec<Enr<enr::CombinedKey>>>::decode(&mut &raw[..]);
+                        }
+                        "remove_insert" => {
+                            let mut e = Enr::builder().build(&key).expect("minimal record");
+                            let _ = e.remove_insert(std::iter::empty::<Vec<u8>>(), vec![(b"big".to_vec(), &raw[..])].into_iter(), &key);
+                        }
+                        _ => {
+                            let t = format!("enr:{}", refspec::b64_encode(&raw));
+                            let _ = parse_all(&t);
+                            let _ = json_all(&serde_json::to_string(&t).unwrap());
+                        }
+                    }
+                })
+            })
+            .join();
+            match r {
+                Ok(Ok(())) => {}
+                Ok(Err(p)) => rep.viols.push(Viol { prop: "C03", sig: format!("C03|{call}|{label}|panic"), what: format!("{case}: {p}"), rank: 1, replay: json!({"engine":"sweep","call":call,"value":label}) }),
+                Err(_) => rep.viols.push(Viol { prop: "C03", sig: format!("C03|{call}|{label}|thread died"), what: case.clone(), rank: 1, replay: json!({"engine":"sweep","call":call,"value":label}) }),
+            }
+        }
+    }
+    let _ = std::fs::remove_file(&journal);
+    rep.stats.transitions += n;
+    rep.stats.class_n("c03:structured-big-arguments", n);
 }
